@@ -155,6 +155,35 @@ for tag, fl in CFGS.items():
         pieces.append(pe(MAN, fn, f"{fn}_post_{tag}", "seg", 2, fl, P, ["output"], ["state", tw, "k1", "ks"]))
 mods.append({"name": "MantisPieces", "imports": ["MantisLeaf"], "entries": pieces})
 
+# ---------------------------------------------------------------- Arduino port (portable C++ path), Skinny-128
+A128 = "arduino/libraries/Skinny/Skinny128.cpp"
+al = [e(A128, "skinny128_sbox", "ard128_sbox", [], 8), e(A128, "skinny128_inv_sbox", "ard128_inv_sbox", [], 8),
+      e(A128, "skinny128_LFSR2", "ard128_LFSR2", [], 8), e(A128, "skinny128_LFSR3", "ard128_LFSR3", [], 8)]
+mods.append({"name": "Arduino128Leaf", "entries": al})
+TH = {"s": {"bytes": 448}, "r": {"bits": 8}}
+def ape(func, lean, kind, index, params, outs, ins=None):
+    d = pe(A128, func, lean, kind, index, [], params, outs, ins)
+    d["this"] = TH; d["windows"] = {"schedule": 8}
+    return d
+ap = []
+for fn, nm in (("Skinny128::encryptBlock", "enc"), ("Skinny128::decryptBlock", "dec")):
+    P = {"output": {"bytes": 16, "out": True}, "input": {"bytes": 16}}
+    ap.append(ape(fn, f"ard128_{nm}_load", "seg", 0, P, ["state"]))
+    ap.append(ape(fn, f"ard128_{nm}_round", "loop", 0, P, ["state"], ["state", "schedule_0"]))
+    ap.append(ape(fn, f"ard128_{nm}_store", "seg", 1, P, ["output"], ["state"]))
+for tw in (0, 1):
+    P = {"key": {"bytes": 16}, "tweaked": {"const": tw}}
+    if tw == 0:
+        ap.append(ape("Skinny128::setTK1", "ard128_tk1_load", "seg", 0, P, ["TK1", "rc"]))
+    ap.append(ape("Skinny128::setTK1", f"ard128_tk1_step_t{tw}", "loop", 0, P, ["schedule_0", "TK1", "rc"], ["TK1", "rc"]))
+P = {"key": {"bytes": 16}}
+ap.append(ape("Skinny128::xorTK1", "ard128_xor_tk1_load", "seg", 0, P, ["TK1"]))
+ap.append(ape("Skinny128::xorTK1", "ard128_xor_tk1_step", "loop", 0, P, ["schedule_0", "TK1"], ["schedule_0", "TK1"]))
+for n in (2, 3):
+    ap.append(ape(f"Skinny128::setTK{n}", f"ard128_tk{n}_load", "seg", 0, P, [f"TK{n}"]))
+    ap.append(ape(f"Skinny128::setTK{n}", f"ard128_tk{n}_step", "loop", 0, P, ["schedule_0", f"TK{n}"], ["schedule_0", f"TK{n}"]))
+mods.append({"name": "Arduino128Pieces", "imports": ["Arduino128Leaf"], "entries": ap})
+
 # ---------------------------------------------------------------- counters
 mods.append({"name": "CounterLeaf", "entries": [
     e(S128, "skinny128_inc_counter", "skinny128_inc_counter", [], None, {"counter": {"bytes": 16}}),
